@@ -146,6 +146,23 @@ func (x *Exec) inlinable(fn *ssa.Function) bool {
 	return false
 }
 
+func externSummary(c *FuncContract) string {
+	var parts []string
+	for _, r := range c.Requires {
+		parts = append(parts, "requires "+r.Text)
+	}
+	for _, e := range c.Ensures {
+		parts = append(parts, "ensures "+e.Text)
+	}
+	if c.Pure {
+		parts = append(parts, "pure")
+	}
+	if c.MayPanic {
+		parts = append(parts, "maypanic")
+	}
+	return strings.Join(parts, "; ")
+}
+
 func (x *Exec) onStack(fr *Frame, fn *ssa.Function) bool {
 	n := 0
 	for f := fr; f != nil; f = f.parent {
@@ -166,6 +183,11 @@ func (x *Exec) callStatic(fr *Frame, st *State, site ssa.Instruction, callee *ss
 	oname := name
 	if o := callee.Origin(); o != nil {
 		oname = o.String()
+	}
+	if c, ok := x.cs.externs[oname]; ok {
+		x.assumeNote(fmt.Sprintf("assumed contract (extern) %s: %s", oname, externSummary(c)))
+		x.applyContract(fr, st, site, oname, c, callee.Signature, nil, args, nil, k)
+		return
 	}
 	if h, ok := stdHandlers[oname]; ok {
 		h(x, fr, st, site, callee, args, k)
